@@ -159,7 +159,9 @@ func (c *ChunkComposer) RunLoop(reader io.Reader, cb OnCompleteMessage) error {
 			case 1:
 				fallthrough
 			case 2:
-				stream.header.TimestampAbs = stream.header.TimestampAbs - maxTimestampInMessageHeader + stream.timestamp
+				// noop
+				// 扩展字段中是完整的时间戳差值，已经保存在stream.timestamp中，message接收完整时会累加到TimestampAbs上，
+				// 这里不能再加一次
 			case 3:
 				// noop
 			}
